@@ -135,6 +135,30 @@ def run_case(case):
             if d > 1 and rng.random() < 0.3:
                 q2 = [float(rng.choice(sp[i])) for i in range(d)]
                 pts.append(q2)
+    if d >= 2:
+        # structured samples: coordinate axes through each maximiser, diagonals, the faces and corners of the domain
+        ms = maximisers or [[(lo + hi) / 2 for lo, hi in dom]]
+        for _ in range(min(4000, n // 5)):
+            m = ms[int(rng.integers(len(ms)))]
+            t = float(rng.random())
+            kind = int(rng.integers(4))
+            if kind == 0:      # a line through the maximiser parallel to an axis
+                j = int(rng.integers(d))
+                q = list(m)
+                q[j] = dom[j][0] + (dom[j][1] - dom[j][0]) * t
+            elif kind == 1:    # a diagonal of the box
+                sg = [int(rng.integers(2)) for _ in range(d)]
+                q = [lo + (hi - lo) * (t if g else 1 - t) for g, (lo, hi) in zip(sg, dom)]
+            elif kind == 2:    # a face of the box
+                q = [lo + (hi - lo) * float(rng.random()) for lo, hi in dom]
+                j = int(rng.integers(d))
+                q[j] = dom[j][int(rng.integers(2))]
+            else:              # close to a maximiser, log-uniform distance
+                r = 10.0 ** rng.uniform(-12, 0)
+                q = [min(hi, max(lo, mj + r * float(rng.normal()))) for mj, (lo, hi) in zip(m, dom)]
+            pts.append([float(v) for v in q])
+        for corner in __import__("itertools").product(*[(lo, hi) for lo, hi in dom]):
+            pts.append([float(v) for v in corner])
     worst = -math.inf
     for x in pts:
         keep = list(x)
